@@ -32,6 +32,7 @@ type Interp struct {
 	skipUserInit map[string]bool
 	noIfConv    bool
 	bgCtx       *NativeObj
+	pkgBuilt    map[*ssa.Package]bool
 	mainPkg     *ssa.Package
 	replaceAlways map[string]bool
 	syncMaps    map[*Value]*Map
@@ -405,7 +406,7 @@ func (in *Interp) visitInstr(fr *frame, instr ssa.Instruction) continuation {
 	case *ssa.Select:
 		fr.env[instr] = in.selectOp(instr, fr)
 	default:
-		unsup("instruction %T", instr)
+		unsup("instruction %T in %s block %d", instr, fr.fn, fr.block.Index)
 	}
 	return kNext
 }
@@ -844,10 +845,13 @@ func (in *Interp) callSSA(caller *frame, pos token.Pos, fn *ssa.Function, args [
 	} else if fn.Parent() == nil && fn.Object() != nil && fn.Object().Pkg() != nil && in.noopPkgs[fn.Object().Pkg().Path()] {
 		return zeroResult(fn.Signature)
 	}
+	if fn.Pkg != nil && !in.pkgBuilt[fn.Pkg] {
+		// Build() is once-guarded and returns only when the package is completely built: never look
+		// at fn.Blocks of a package another worker may still be building
+		fn.Pkg.Build()
+		in.pkgBuilt[fn.Pkg] = true
+	}
 	if fn.Blocks == nil {
-		if fn.Pkg != nil {
-			fn.Pkg.Build()
-		}
 		if fn.Blocks == nil {
 			unsup("no code for function %s", fn)
 		}
